@@ -437,8 +437,12 @@ def product_cases(draw):
         if what == "profile":
             steps.append({"axis": draw(st.integers(0, 2)), "function": draw(st.sampled_from(["maximum", "minimum", "mean", "median", "sum"]))})
         else:
-            steps.append({"lo": draw(st.sampled_from([-4.1, -2.05, 0.3, -0.7])), "width": draw(st.sampled_from([1.3, 4.2, 8.4])), "bins": draw(st.integers(1, 8)),
-                          "cumulative": draw(st.booleans()), "normalize": draw(st.booleans())})
+            step = {"lo": draw(st.sampled_from([-4.1, -2.05, 0.3, -0.7])), "width": draw(st.sampled_from([1.3, 4.2, 8.4])), "bins": draw(st.integers(1, 8)),
+                    "cumulative": draw(st.booleans()), "normalize": draw(st.booleans())}
+            if steps and draw(st.booleans()):
+                # same range and bins as the step before: only the presentation (cumulative / normalize) changes
+                step.update({k: steps[-1][k] for k in ("lo", "width", "bins")})
+            steps.append(step)
     return {"what": what, "shape": shape, "vals": vals, "thr": draw(gen.dyadic), "steps": steps}
 
 
